@@ -46,9 +46,11 @@
 (*  R9 a closed-loop interface (both ends the same junction) cannot be     *)
 (*     drawn with one segment: ne = 1 on a mesh with a closed loop is a    *)
 (*     rejected input.  An inconsistent mesh (C09) is a rejected input.    *)
-(*  R10 (not demanded of inputs with a chain, R6) "changes nothing": same ids at the same exact positions,   *)
+(*  R10 "changes nothing" = same vertex ids at the same exact positions,   *)
 (*     same cell ids with the same cycles up to rotation, same set of      *)
-(*     mesh edges as vertex pairs (mesh-edge ids may be renumbered).       *)
+(*     mesh edges as vertex pairs (mesh-edge ids may be renumbered).  Not  *)
+(*     demanded of inputs with a chain (R6): what is left of a chain after *)
+(*     one contraction is again a two-point border interface.              *)
 (***************************************************************************)
 EXTENDS MeshEdits, TLC
 
